@@ -71,6 +71,8 @@ class PathTable:
         T.attr_of_bound = True
         T.structured = self.structured
         T.unroll_comps = self.unroll
+        if self.prog is not None:
+            T.call_arity = lambda name, prog=self.prog: _return_arity(prog, name)
         if self.unroll and self.module is not None:
             mod = self.module
 
@@ -363,6 +365,29 @@ def _is_literal(e: ast.AST) -> bool:
     if isinstance(e, ast.UnaryOp) and isinstance(e.op, ast.USub):
         return _is_literal(e.operand)
     return False
+
+
+def _return_arity(prog, name: str) -> Optional[int]:
+    """n when the package has exactly one function called `name` and each of its return statements returns a tuple display
+    of n elements (or a name bound to one just before); else None."""
+    fs = [f for f in prog.funcs.values() if f.name == name and f.kind != "lambda"]
+    if len(fs) != 1:
+        return None
+    ns = set()
+
+    def own(n):
+        for c in ast.iter_child_nodes(n):
+            if isinstance(c, (ast.FunctionDef, ast.Lambda, ast.ClassDef)):
+                continue
+            yield c
+            yield from own(c)
+    for r in own(fs[0].node):
+        if isinstance(r, ast.Return):
+            if isinstance(r.value, ast.Tuple) and not any(isinstance(e, ast.Starred) for e in r.value.elts):
+                ns.add(len(r.value.elts))
+            else:
+                return None
+    return ns.pop() if len(ns) == 1 else None
 
 
 def _is_table(e: ast.AST) -> bool:
@@ -764,6 +789,9 @@ def holds(lit, assign) -> Optional[bool]:
                 return None if r is None else (r if isinstance(lit, sp.Eq) else not r)
             return None
         lit_like = lambda x: x.is_Symbol and (x.name.startswith("'") or x.name == "None")   # noqa: E731
+        value_like = lambda x: getattr(getattr(x, "func", None), "__name__", "") in ("lambda_", "dict") or isinstance(x, sp.Tuple)   # noqa: E731
+        if (lit_like(a) and a.name == "None" and value_like(b)) or (lit_like(b) and b.name == "None" and value_like(a)):
+            return isinstance(lit, sp.Ne)          # a function value / container is not None
         if lit_like(a) and lit_like(b):
             r = a == b
             return r if isinstance(lit, sp.Eq) else not r
@@ -795,6 +823,63 @@ def pick(value, assign):
         if v:
             return pick(e, assign)
     return None
+
+
+def apply_function_value(prog, module, name: str, args, call_hook=None, unroll: bool = True):
+    """The value of calling the package function `name` (referenced as a value, e.g. from a lookup table) on positional
+    `args`: its single returning path with the parameters bound; None when the function is not of that simple shape."""
+    r = prog.resolve_name(module, name) if prog is not None and module is not None else None
+    if not r or r[0] != "func":
+        return None
+    g = r[1]
+    if len(args) > len(g.params):
+        return None
+    env = dict(zip(g.params, args))
+    d = g.defaults()
+    for p_ in g.params[len(args):]:
+        if p_ not in d:
+            return None
+        env[p_] = Translator().tr(d[p_])
+    try:
+        ls = PathTable(prog, g.module, env=env, call_hook=call_hook, unroll=unroll).leaves(g.node.body)
+    except AnalysisError:
+        return None
+    rets = [l for l in ls if l.exit == "return"]
+    if len(rets) != 1 or len(ls) != 1 or rets[0].value is None:
+        return None
+    return rets[0].value
+
+
+def outcomes(leaves, world):
+    """The paths a finite world can take, with values and events evaluated in it.
+    A path whose conditions are false in the world is dropped; a path that looks up a missing key of a lookup table is
+    infeasible unless it is the handler of that lookup: when some ordinary path works the `except` paths are dropped, otherwise
+    the `except` paths are the outcome (and when there is none, the lookup error itself: exit "raise")."""
+    rows = []
+    for l in leaves:
+        conds = [specialise(c, world) for c in literals(l)]
+        if any(holds(c, world) is False for c in conds):
+            continue
+        val = specialise(l.value, world) if l.value is not None else None
+        evs = []
+        for e in l.events:
+            v = e[2]
+            try:
+                v = specialise(v, world) if hasattr(v, "xreplace") else v
+            except Exception:
+                pass
+            evs.append((e[0], e[1], v, e[3]))
+        terms = conds + ([val] if val is not None else []) + [e[2] for e in evs if hasattr(e[2], "free_symbols")]
+        failed = any(KEYERROR in sp.sympify(x).free_symbols for x in terms if hasattr(x, "free_symbols") or True)
+        handler = any("raised(" in str(c) for c in conds)
+        rows.append(dict(leaf=l, value=val, events=evs, exit=l.exit, failed=failed, handler=handler, conds=conds))
+    normal = [r for r in rows if not r["handler"] and not r["failed"]]
+    if normal:
+        return normal
+    hand = [r for r in rows if r["handler"] and not r["failed"]]
+    if hand:
+        return hand
+    return [dict(r, exit="raise") for r in rows]
 
 
 def consistent(leaf: "Leaf", assign) -> bool:
